@@ -488,7 +488,7 @@ def run_property(pid, tier, seed):
                                            if mode == "climodel" else
                                            "real binary, 36 formulas (incl. bound-before-free names, shadowing, fixed points, extreme constants) x {-t, -t -f true/false/any, -v} against the replay crate's independent evaluator: columns = the free variables in variable order; disjoint rows with the right result on every covered assignment; coverage = all / satisfying / falsifying assignments per filter; -v = exactly the satisfying assignments over free names; identical table / listing through --evaluate, file and stdin, for -b 1/2/3/5 and for the 12 filter spellings; combined options (-r -t -v, -m -t -v, -c X -t -v, ...) print exactly the sections each option prints on its own"
                                            if mode == "clitable" else
-                                           "real binary, 14 formulas x 14 ordering files (permutations, subsets, supersets with unused names, duplicates, punctuation, comments, primed names): same satisfying assignments of the same names as the default order; listed variables in file order; -r export fed back with -o reproduces the identical table"),
+                                           "real binary, 14 formulas x 19 ordering files (permutations, subsets, supersets with unused names, duplicates, all kinds of punctuation and white space, comments, primed names): same satisfying assignments of the same names as the default order; listed variables in file order; -r export fed back with -o reproduces the identical table"),
                                  "failing_input": foundin})
                 if foundin is not None:
                     fl = Failure("bounded-standin", "bounded CLI stand-in: the real binary misbehaved", "", f"{pid}::bounded#{mode}", 0, json.dumps(foundin))
